@@ -24,7 +24,7 @@ func init() {
 		Rule: "case = (matcher+configuration, stream, prefix length k): streams are well-formed first messages with 0..64 bytes of trailing data and boundary-aware mutations of them; " +
 			"for every k (all k<=700, sampled above) a fresh layer4.Connection preloaded with the k-byte prefix over a counting conn is evaluated through MatcherSet.Match. " +
 			"oracle: P1 no network read during Match; P2 MatchingBytes and a full read afterwards equal the prefix; P3 two evaluations on one connection and one on a fresh connection agree; " +
-			"P4 (stream matchers) NO/ERR at k stays NO/ERR for all longer prefixes; P5 (stream matchers) YES at k implies MORE or YES at every shorter prefix. " +
+			"P4 (stream matchers) NO/ERR at k stays NO/ERR for all longer prefixes; P5 (stream matchers) YES at k implies MORE or YES at every shorter prefix; P6 a stream evaluated again later (fresh connection, after other streams of the target) gets the same verdict. " +
 			"non-trivial = the stream's verdict sequence contains at least one MORE or YES; distinct = hash(target, stream). " +
 			"route level: a route list of a proxy_protocol route (non-terminal) followed by 3-8 shipped stream matchers in a shuffled order, each ending in a recording sink; a stream (optional PROXY v1/v2 header + well-formed " +
 			"message + trailing bytes) is delivered whole and in 2-4 fragments (separate prefetch rounds): the same route must consume it and its handler must read the same bytes",
@@ -44,6 +44,11 @@ func init() {
 		Run:    run,
 		Replay: replay,
 	})
+}
+
+type histEntry struct {
+	stream  []byte
+	verdict mt.Verdict
 }
 
 // Witness is what a replay file holds.
@@ -81,6 +86,7 @@ func run(c *fw.Ctx) {
 			continue
 		}
 		r := fw.Rand(c.Seed, "c06", t.Name())
+		var hist []histEntry
 		for i := 0; i < nStreams; i++ {
 			idx++
 			// generate on every shard (keeps the PRNG aligned), evaluate only our share
@@ -103,6 +109,25 @@ func run(c *fw.Ctx) {
 				continue
 			}
 			checkStream(c, m, t, stream)
+			// P6: a verdict does not depend on which streams were evaluated before (no state carried from one
+			// connection to the next): an earlier stream of this target is evaluated again and must get the verdict it
+			// got the first time
+			o := mt.Opts{UDP: t.UDP, WrapTime: time.Date(2024, 5, 5, 12, 0, 0, 0, time.UTC)}
+			if v, _ := m.Eval(stream, o); len(hist) < 64 {
+				hist = append(hist, histEntry{stream, v})
+			} else {
+				hist[r.Intn(len(hist))] = histEntry{stream, v}
+			}
+			if r.Intn(2) == 0 && len(hist) > 1 {
+				h := hist[r.Intn(len(hist))]
+				if v2, _ := m.Eval(h.stream, o); v2 != h.verdict {
+					c.Violation(fmt.Sprintf("C06 %s P6 verdict-depends-on-history", t.Matcher),
+						fmt.Sprintf("a stream that was answered %s is answered %s when it is evaluated again (fresh connection) after other connections have been matched", h.verdict, v2),
+						Witness{Target: t.Name(), Matcher: t.Matcher, Config: t.Config, UDP: t.UDP, StreamHex: hex.EncodeToString(h.stream), K: len(h.stream), Detail: "P6: evaluated again after " + hex.EncodeToString(stream)})
+					hist = nil
+				}
+				c.Obs("history_reevaluations", 1)
+			}
 		}
 		m.Close()
 	}
